@@ -164,6 +164,13 @@ func runProf(src, dst net.IP, mac net.HardwareAddr, entries []string, seq [][3]s
 //
 //	pseq <src/dst/mac>,<src/dst/mac>,… <entry>*  ->  seq=<ctx:path:profile>,…   (hex fields)
 func runPseq(ps config.Profiles, seq [][3]string) string {
+	via := make([]bool, len(seq))
+	for i := range seq {
+		if strings.HasSuffix(seq[i][2], "/e") {
+			via[i] = true
+			seq[i][2] = strings.TrimSuffix(seq[i][2], "/e")
+		}
+	}
 	cache := &recCache{}
 	rt := &recRT{}
 	d := &resolver.DOH{Cache: cache}
@@ -183,6 +190,30 @@ func runPseq(ps config.Profiles, seq [][3]string) string {
 		q := query.Query{ID: uint16(i + 1), Class: query.ClassINET, Type: query.TypeA, Name: name,
 			PeerIP: optIP(t[0]), LocalIP: optIP(t[1]), MAC: net.HardwareAddr(unhx(t[2])),
 			Payload: []byte{0, byte(i + 1), 1, 0, 0, 1, 0, 0, 0, 0, 0, 0}}
+		if via[i] {
+			// the client tuple reaches the resolver the way it does behind a forwarder such as dnsmasq:
+			// through query.New on a wire query whose EDNS options carry the client address (ECS /32 or
+			// /128) and MAC (dnsmasq's add-mac option)
+			src := optIP(t[0])
+			var opts []optSpec
+			if mac := unhx(t[2]); len(mac) > 0 {
+				opts = append(opts, optSpec{code: 0xfde9, data: mac})
+			}
+			fam, bits := byte(1), byte(32)
+			if len(src) == 16 {
+				fam, bits = 2, 128
+			}
+			opts = append(opts, optSpec{code: 8, data: append([]byte{0, fam, bits, 0}, src...)})
+			body := append(wireName(fmt.Sprintf("n%d", i%3), "example", "com"), 0, 1, 0, 1)
+			body = append(body, packRR(rrSpec{name: []byte{0}, typ: 41, class: 1232, rdata: packOpts(opts)})...)
+			pl := append(be16(i+1), 1, 0, 0, 1, 0, 0, 0, 0, 0, 1)
+			pl = append(pl, body...)
+			var qerr error
+			q, qerr = query.New(pl, net.IPv4(127, 0, 0, 1), optIP(t[1]))
+			if qerr != nil {
+				return fmt.Sprintf("err %d:query.New %v", i, qerr)
+			}
+		}
 		buf := make([]byte, 512)
 		_, info, err := resolver.VerifC11DOHResolve(d, context.Background(), q, buf, rt)
 		if err != nil {
@@ -341,6 +372,9 @@ func init() {
 				var seq [][3]string
 				for _, t := range strings.Split(f[1], ",") {
 					g := strings.Split(t, "/")
+					if len(g) == 4 && g[3] == "e" {
+						g = []string{g[0], g[1], g[2] + "/e"}
+					}
 					if len(g) != 3 {
 						c.Emit(l, "bad-case")
 						return ""
@@ -439,7 +473,15 @@ func init() {
 				macs := []string{mac, mac, hx(m2), "-"}
 				var ts []string
 				for j := 0; j < k; j++ {
-					ts = append(ts, srcs[r.Intn(len(srcs))]+"/"+dsts[r.Intn(len(dsts))]+"/"+macs[r.Intn(len(macs))])
+					t := srcs[r.Intn(len(srcs))] + "/" + dsts[r.Intn(len(dsts))] + "/" + macs[r.Intn(len(macs))]
+					if sb := strings.SplitN(t, "/", 2)[0]; (len(sb) == 8 || len(sb) == 32) && sb != "7f000001" && r.Chance(40) {
+						m := strings.Split(t, "/")[2]
+						if m == "-" || len(m) == 12 {
+							t += "/e" // behind a forwarder: address and MAC arrive as EDNS options
+							c.Stat("pseq:via-edns")
+						}
+					}
+					ts = append(ts, t)
 				}
 				if r.Chance(50) && len(es) < 6 {
 					if e, ok := r.genProfEntryRaw(c, "lo=p3"); ok {
